@@ -30,7 +30,7 @@ CHECKS = {
               "keys with 0..4 components, OCB nonce 1..15 x mac_len 8..16, ChaCha20-Poly1305 8/12/24, KW/KWP, ARC4 with drop, Salsa20, ChaCha20/XChaCha20 with seek.  Decrypt "
               "must invert, and when the library chose the nonce/IV the model must decrypt with the exposed attribute.  ~60 classes of illegal parameters must raise ValueError/"
               "TypeError."),
-        note="Trusted: ref/ciphers.py and ref/modes.py self-tests (FIPS/RFC/NIST vectors, Wycheproof by the model alone); openssl CLI optional. Sizes up to 4 MiB; limits at 2^32 blocks belong to C11.",
+        note="Decoy objects also vary the tag length under the same key and nonce. Trusted: ref/ciphers.py and ref/modes.py self-tests (FIPS/RFC/NIST vectors, Wycheproof by the model alone); openssl CLI optional. Sizes up to 4 MiB; limits at 2^32 blocks belong to C11.",
         ref="DESIGN.md §4 C02"),
     "C03": dict(
         technique="runtime monitor: reference-model oracle (hashlib + independent pure-Python MD2/MD4/RIPEMD/Keccak/SP 800-185/RFC 9861 models, stdlib hmac, reference CMAC/Poly1305) plus acceptance oracle for every MAC",
@@ -42,7 +42,7 @@ CHECKS = {
               "all construction paths (new(data), segmented update with three buffer types, copy(), obj.new(), update_after_digest).  Acceptance oracle on every MAC: verify/"
               "hexverify must accept iff the candidate equals the model tag (true tag, bit flips, every truncation, extensions, tag||tag, tag under another key, all-zero) and "
               "reject with ValueError."),
-        note="Trusted: hashlib (OpenSSL) and ref/hashes.py self-tests (RFC/NIST vectors); MD5/SHA-1/SHA-2/BLAKE2 have hashlib as the only oracle. Messages up to 2 MiB; bit-length counter carries beyond 2^32 bits are not reached.",
+        note="One MAC object authenticating a growing message (digest/verify after update()); copy() of an object beyond 2^32 absorbed bits against hashlib. Trusted: hashlib (OpenSSL) and ref/hashes.py self-tests (RFC/NIST vectors); MD5/SHA-1/SHA-2/BLAKE2 have hashlib as the only oracle. Messages up to 2 MiB; bit-length counter carries beyond 2^32 bits are not reached.",
         ref="DESIGN.md §4 C03"),
     "C04": dict(
         technique="runtime monitor: acceptance oracle with independent verifiers (RFC 8017, FIPS 186-4, RFC 6979, RFC 8032 models decide the validity of ANY candidate) + byte equality for deterministic / tape-driven signing + repeatability checks + long-lived scheme objects driven through mixed-parameter histories",
@@ -54,7 +54,7 @@ CHECKS = {
               "order R and A, wrong ctx / ph flag, RSA s >= n and s+n, and forged encoded messages signed with the private key for chosen EM (PS < 8, non-FF PS, garbage after "
               "DigestInfo, wrong OID / hash length, PSS wrong trailer / top bits / PS / 01 / salt length).  Keys: RSA 1024..1031 bits (thorough to 2049) with e in {3,17,65537}, "
               "four DSA domains, P-192..P-521, Ed25519/Ed448 incl. small-order public keys."),
-        note="Trusted: ref/sigs.py, ref/rsa.py, ref/ec.py (RFC 6979, RFC 8032, CAVS vectors). Where RFC 8032 allows either verification equation, soundness is demanded only when both reject. Forgery classes x random instances, not all byte strings.",
+        note="EdDSA public keys with a torsion component (signatures for which both RFC 8032 equations hold must be accepted). Trusted: ref/sigs.py, ref/rsa.py, ref/ec.py (RFC 6979, RFC 8032, CAVS vectors). Where RFC 8032 allows either verification equation, soundness is demanded only when both reject. Forgery classes x random instances, not all byte strings.",
         ref="DESIGN.md §4 C04"),
     "C05": dict(
         technique="runtime monitor: invariant at a hook (check_key_invariants on every key object returned by generate/construct/import_key, computed with Python integers and reference curve arithmetic) + by-construction invalid inputs that must be refused",
@@ -67,7 +67,7 @@ CHECKS = {
               ">= p / neutral / twist points, scalars 0, n, n+1, mismatched halves on every curve family, every low-order u with offsets); import_key of library- and model-written "
               "files in every format and of the same containers carrying invalid numbers.  Invalid-by-construction input that is accepted, or refused with another exception than "
               "ValueError, is a violation."),
-        note="Trusted: ref/primes.py (BPSW), ref/ec.py, ref/keyfiles.py encoders. Keys <= 3072 bits. Four known findings (public sections / PKCS#8 publicKey field ignored by importers) are listed in known_findings.json.",
+        note="(n,e,d) factor recovery of q'*Carmichael moduli; off-curve points that miss the curve equation by one lost/invented carry of the Montgomery product of a carry-chain coordinate, and valid points with such a coordinate. Trusted: ref/primes.py (BPSW), ref/ec.py, ref/keyfiles.py encoders. Keys <= 3072 bits. Four known findings (public sections / PKCS#8 publicKey field ignored by importers) are listed in known_findings.json.",
         ref="DESIGN.md §4 C05"),
     "C06": dict(
         technique="runtime monitor: reference-model oracle (exact affine Weierstrass / Edwards / Montgomery arithmetic on Python integers, SP 800-56A and RFC 7748 secrets) over point/scalar/role grids with replayed blinding seeds and in-place operation histories on one object",
@@ -78,7 +78,7 @@ CHECKS = {
               "generic path on the same k; the blinding seed is replayed from a tape (zero seed = unblinded path); operands must stay unchanged, in-place results must equal the "
               "result and survive exceptions uncorrupted; mixed-curve operands must raise or compare unequal.  ECDH: all five documented static/ephemeral role combinations in "
               "both directions on the seven DH curves, Z equal for both parties and equal to the model; neutral/low-order peer keys in every role slot must end in ValueError."),
-        note="Trusted: ref/ec.py (curve parameters validated, RFC 7748/NIST vectors) cross-checked at run time against a second affine Montgomery model. Scalars <= 1000 bits. One known finding (2-torsion u=0 on Curve25519/448) is listed in known_findings.json.",
+        note="Operand pairs sharing exactly one coordinate; operand points with a carry-chain coordinate. Trusted: ref/ec.py (curve parameters validated, RFC 7748/NIST vectors) cross-checked at run time against a second affine Montgomery model. Scalars <= 1000 bits. One known finding (2-torsion u=0 on Curve25519/448) is listed in known_findings.json.",
         ref="DESIGN.md §4 C06"),
     "C07": dict(
         technique="runtime monitor: reference-model oracle (independent EME-OAEP / EME-PKCS1-v1_5 encode+decode) with chosen encoded messages pushed through the real decryption path (c = EM^e mod n) and entropy tapes for encryption",
@@ -89,7 +89,7 @@ CHECKS = {
               "every position, each lHash byte class wrong, non-zero PS, missing 01, Y != 0; the outcome must be exactly the model's (message vs sentinel identity vs ValueError). "
               "The C decoders are additionally swept through their wrappers: all 49152 zero/non-zero patterns of a 14-byte EM and a 3^9 OAEP sweep.  Wrong-length and >= n "
               "ciphertexts must raise ValueError."),
-        note="Trusted: ref/rsa.py (RFC 8017 vectors). Patterns, not all 2^(8k) encoded messages; constant-time behaviour is not observable here.",
+        note="OAEP with SHA-512/256 and SHA-512/224 hash objects. Trusted: ref/rsa.py (RFC 8017 vectors). Patterns, not all 2^(8k) encoded messages; constant-time behaviour is not observable here.",
         ref="DESIGN.md §4 C07"),
     "C08": dict(
         technique="runtime monitor: reference-model oracle (independent key-file parser/encoder + strict DER reader) over the full export matrix, wrong-passphrase and equality truth-table checks",
@@ -102,7 +102,7 @@ CHECKS = {
               "EC keys selected for leading-zero coordinates and boundary seeds.  Key files written by the model's own encoders (incl. unencrypted openssh-key-v1) must import to "
               "the same numbers; the equality truth table (re-import, other key, private vs public, one component changed, same modulus other d, cross type/curve, key vs "
               "int/None/str/bytes/object) must hold and never raise."),
-        note="Trusted: ref/keyfiles.py and ref/der.py (self-tested against 38 OpenSSL/OpenSSH-generated files), ref.ciphers/ref.modes, hashlib PBKDF2/scrypt. Documented export refusals are counted, not judged. Keys <= 2048 bits.",
+        note="Keys whose binary encodings end in CR/LF/blank/TAB/NUL octets; public EC keys with x = 0. Trusted: ref/keyfiles.py and ref/der.py (self-tested against 38 OpenSSL/OpenSSH-generated files), ref.ciphers/ref.modes, hashlib PBKDF2/scrypt. Documented export refusals are counted, not judged. Keys <= 2048 bits.",
         ref="DESIGN.md §4 C08"),
     "C09": dict(
         technique="runtime monitor: metamorphic oracle (canonical one-call/bytes/returned result vs the same logical operation under other partitions, buffer types, output placements; byte snapshots and canaries around every buffer)",
@@ -113,7 +113,7 @@ CHECKS = {
               "bytes / bytearray / memoryview of each / read-only view / unaligned slice with canaries / guard-page views per segment and per documented constructor parameter; "
               "returned, output=bytearray, output=memoryview at odd offset, guard-page output, in place (same object, or distinct object over the same memory).  Every mutable "
               "buffer is scribbled by the caller after the call (exposes kept references) and every non-output buffer is compared with its snapshot."),
-        note="Trusted: nothing beyond equality with the library's own canonical result (tied to the standards by C02/C03). Only documented buffer types are driven; partial overlap of input and output is outside the statement.",
+        note="One segment of 2^29+200 octets against 64 MiB segments; XOF output continued on copy() between reads. Trusted: nothing beyond equality with the library's own canonical result (tied to the standards by C02/C03). Only documented buffer types are driven; partial overlap of input and output is outside the statement.",
         ref="DESIGN.md §4 C09"),
     "C10": dict(
         technique="runtime monitor: online trace-specification checker (executable automata transcribed from the documentation stepped alongside the real object over exhaustive and random call sequences, output placements) + linearizability check of two-thread call/return histories on one object against the automaton",
@@ -171,7 +171,7 @@ CHECKS = {
               "verified by squaring (p = 3 mod 4, 5 mod 8, 1 mod 8 with high 2-adicity); primality verdicts are judged on ground truth by "
               "construction (Pocklington-certified primes, Mersenne and curve primes; Chernick Carmichael numbers, p(2p-1)/p(3p-2) strong-pseudoprime "
               "shapes, prime squares, close-prime products, literature strong/Lucas pseudoprimes); generated primes are checked for exact size and primality."),
-        note="Trusted: CPython integers; ref/primes.py (certificates re-verified at run time, BPSW for library-generated primes). Miller-Rabin on composites is probabilistic: only >=20-round runs must say COMPOSITE. Held only on generated operands (<= 4224 bits).",
+        note="Carry-chain operands for modular operations, near-square operands for sqrt, 0^0 corners, from_bytes on one reused bytearray / memoryview / padded input. Trusted: CPython integers; ref/primes.py (certificates re-verified at run time, BPSW for library-generated primes). Miller-Rabin on composites is probabilistic: only >=20-round runs must say COMPOSITE. Held only on generated operands (<= 4224 bits).",
         ref="DESIGN.md §4 C14"),
     "C15": dict(
         technique="runtime monitor: reference-model oracle (independent RFC 9180 DHKEM/KeySchedule/ContextS/ContextR over ref.ec + ref.modes) with captured ephemeral keys, over hostile receiver histories",
@@ -181,7 +181,7 @@ CHECKS = {
               "messages and its outcome for each offered message must equal the model ContextR, whose sequence number advances only after a successful open (RFC 9180 5.2); receivers "
               "built with different info/psk/psk_id/AEAD/sender key/receiver key/enc must reject; invalid PSK/key/enc set-ups (psk without id, short psk, two private keys, curve "
               "mismatch, enc when sealing / missing / wrong length / off curve / not reduced / low order) must be refused with ValueError."),
-        note="Trusted: ref/hpke.py (self-tested against RFC 9180 A.1.1 key schedule and two ciphertexts), ref.ec, ref.modes, stdlib hmac. info/AAD/plaintext up to 5000 bytes, histories up to 12 messages; sequence exhaustion is covered by C11 via state injection.",
+        note="info / psk / psk_id of 16 KiB to 1 MiB including exact multiples of 64 KiB. Trusted: ref/hpke.py (self-tested against RFC 9180 A.1.1 key schedule and two ciphertexts), ref.ec, ref.modes, stdlib hmac. info/AAD/plaintext up to 5000 bytes, histories up to 12 messages; sequence exhaustion is covered by C11 via state injection.",
         ref="DESIGN.md §4 C15"),
     "C16": dict(
         technique="runtime monitor: differential-configuration oracle (same transcript under AES-NI on/off, CLMUL on/off, GMP/custom/native integers) with variant call counters",
@@ -190,7 +190,7 @@ CHECKS = {
               "and segmentations; GCM with use_clmul on/off over nonce/AAD/message/tag-length grids; ~50 Integer operations on the three classes incl. result "
               "types and the exception class for a single violated precondition; and a tape-driven RSA/DSA/ECC/primality workload run in three processes "
               "(GMP, PYCRYPTODOME_DISABLE_GMP=1, forced native) whose transcripts are diffed line by line.  Counters prove both variants of each pair executed."),
-        note="Trusted: nothing beyond equality of transcripts; requires a CPU with AES-NI and PCLMULQDQ (else inconclusive). Held only on generated inputs.",
+        note="Carry-chain, near-square and 0^0 operands in the three-back-end differential. Trusted: nothing beyond equality of transcripts; requires a CPU with AES-NI and PCLMULQDQ (else inconclusive). Held only on generated inputs.",
         ref="DESIGN.md §4 C16"),
     "C17": dict(
         technique="sanitizer monitor: AddressSanitizer+UBSan(memory) build of the C sources plus mprotect guard pages around caller buffers, driven by a length/alignment/aliasing/lifecycle sweep, constructor parameters beyond their limits and wide-item memoryviews",
@@ -212,7 +212,7 @@ CHECKS = {
               "Consumers (ECC.generate on every curve, FIPS (EC)DSA nonces, DSA/RSA generation) run under boundary tapes: bounds, determinism, entropy "
               "dependence, redraw after an out-of-range first draw.  Integer.random/random_range are wrapped in place during sign/decrypt/generate workloads "
               "and every value is checked against the bounds in its arguments."),
-        note="Trusted: entropy reaches the library only via randfunc / Crypto.Random (os.urandom captured before import). Exact uniformity decided for ranges <= 600 and <= 16 bits; cryptographic sizes only via boundary tapes.",
+        note="DSA.generate must draw at least N+64 bits for x (FIPS 186-4 B.1.1) on all four (L,N) pairs. Trusted: entropy reaches the library only via randfunc / Crypto.Random (os.urandom captured before import). Exact uniformity decided for ranges <= 600 and <= 16 bits; cryptographic sizes only via boundary tapes.",
         ref="DESIGN.md §4 C18"),
     "C19": dict(
         technique="race detector + metamorphic history monitor: ThreadSanitizer build under 2-16 threads, per-thread transcripts vs solo runs, interleaved-vs-isolated programs, argument snapshots (every buffer argument as bytearray/memoryview), native and Python-layer hammers with per-thread parameters, first-use races with sys.monitoring yield injection",
@@ -225,7 +225,7 @@ CHECKS = {
               "output, operand points unchanged; (e) 9 curves x 10/100 trials, each in a fresh process: 2-8 threads released by a barrier onto generate/construct/import_key/"
               "EccPoint of an untouched curve while sys.monitoring LINE callbacks inject seeded yields inside the curve-loading modules; no exception, identical curve object, "
               "result equal to the single-threaded one; distinct yield schedules are counted."),
-        note="Trusted: TSan's interception of the GIL hand-offs (measured silent on legitimate workloads). A race needs both accesses in one run: 'no race observed in K runs'. Sharing one mutable object between threads is outside the statement and never done.",
+        note="copy() of objects that absorbed more than 2^32 bits (clone, original and a never-copied twin). Trusted: TSan's interception of the GIL hand-offs (measured silent on legitimate workloads). A race needs both accesses in one run: 'no race observed in K runs'. Sharing one mutable object between threads is outside the statement and never done.",
         ref="DESIGN.md §4 C19"),
     "C20": dict(
         technique="runtime monitor: reference-model oracle (independent GF(2^128) + Lagrange) over entropy-tape-driven split/combine executions + coefficient freshness across fork()",
@@ -234,7 +234,7 @@ CHECKS = {
               "higher coefficients are exactly the tape reads; all k-subsets and orderings (k<=n<=6 exhaustively, sampled up to n=257) "
               "must recombine; duplicates must raise ValueError; secrecy is executed by solving for a tape that reproduces k-1 shares "
               "under another secret; field laws and every product/inverse are compared with the model on boundary and random elements."),
-        note="Trusted: ref/gf128.py (self-tested field axioms), the tape reaches the library through os.urandom captured before Crypto.Random is imported. Held only on generated cases.",
+        note="Secrets, coefficients and share values that read like text (digits, hex, literals). Trusted: ref/gf128.py (self-tested field axioms), the tape reaches the library through os.urandom captured before Crypto.Random is imported. Held only on generated cases.",
         ref="DESIGN.md §4 C20"),
 }
 
